@@ -18,9 +18,11 @@ type Case struct {
 }
 
 type CaseResult struct {
-	Viols      []Viol
-	Nontrivial bool   // by the enumeration's stated rule
-	Class      string // outcome class, for the distinct-outcome statistics
+	Viols           []Viol
+	Nontrivial      bool   // by the enumeration's stated rule
+	Class           string // outcome class, for the distinct-outcome statistics
+	Count           int    // evaluations performed inside this case (default 1)
+	NontrivialCount int    // non-trivial evaluations inside this case (default: 1 if Nontrivial)
 }
 
 // Enum describes an enumeration bound to a world configuration.
@@ -92,9 +94,14 @@ func (r *Run) AddEnum(e Enum, workers int, deadline time.Time) {
 					cr = c.Run(base.Fork())
 				}()
 				mu.Lock()
-				evals++
-				if cr.Nontrivial {
-					nontriv++
+				if cr.Count > 0 {
+					evals += cr.Count
+					nontriv += cr.NontrivialCount
+				} else {
+					evals++
+					if cr.Nontrivial {
+						nontriv++
+					}
 				}
 				classes[cr.Class]++
 				classOf[i] = cr.Class
